@@ -1,7 +1,9 @@
 """C16 CrossHair harnesses: run-length encodings reproduce what they encode."""
 import logging
 logging.disable(logging.CRITICAL)
+import os
 from engine import mark
+PART = int(os.environ.get('VERIF_PART', '-1'))
 from TotalDepth.common import Rle
 from TotalDepth.LIS.core import Rle as LisRle
 
@@ -34,6 +36,34 @@ def rle_roundtrip(n: int, x0: int, x1: int, x2: int, x3: int, x4: int) -> bool:
     for item in r.rle_items:
         tot += len(item)
     return tot == n
+
+
+def rle_roundtrip_large(n: int, x0: int, x1: int, x2: int, x3: int, scale: int) -> bool:
+    """
+    pre: 1 <= n <= 4 and 0 <= scale <= 2
+    pre: -3 <= x0 <= 3 and -3 <= x1 <= 3 and -3 <= x2 <= 3 and -3 <= x3 <= 3
+    pre: (n >= 2 or x1 == 0) and (n >= 3 or x2 == 0) and (n >= 4 or x3 == 0)
+    pre: PART < 0 or x0 + 3 == PART
+    post: _
+    """
+    # integers far beyond 2**53 (nanosecond time stamps, positions in huge files): still exact, no float arithmetic may be involved
+    n, scale = mark.pick(n, 1, 4), mark.pick(scale, 0, 2)
+    x0 = mark.pick(x0, -3, 3)
+    x1 = mark.pick(x1, -3, 3) if n >= 2 else 0
+    x2 = mark.pick(x2, -3, 3) if n >= 3 else 0
+    x3 = mark.pick(x3, -3, 3) if n >= 4 else 0
+    with mark.untraced():
+        base = [2 ** 60, -(2 ** 62), 1700000000000000000][scale]
+        step = [1000, 0, 1000000][scale]
+        xs = [base + i * step + x for i, x in enumerate([x0, x1, x2, x3][:n])]
+        r = Rle.create_rle(xs)
+        mark.hit()
+        if r.num_values() != n or list(r.values()) != xs:
+            return False
+        for i in range(n):
+            if r.value(i) != xs[i] or r.value(-1 - i) != xs[n - 1 - i]:
+                return False
+        return r.first() == xs[0] and r.last() == xs[n - 1]
 
 
 def rle_largest_le(n: int, x0: int, d1: int, d2: int, d3: int, q: int) -> bool:
